@@ -85,6 +85,8 @@ func C01(c *Ctx) {
 	c.typePredicateRule("C01-13")
 	c.typecastIdentityRule("C01-14")
 	c.loaderConfigRule("C01-15")
+	c.addressOfRule("C01-16")
+	c.foreignTypeRule("C01-17")
 }
 
 // wrapperRule: wrappers never surround nodes that may return (value, error).
